@@ -135,8 +135,8 @@ static std::map<std::string, DomFn>& dom_table() { static std::map<std::string, 
 // "... CRASH 24"; the python side re-runs that single case with a larger budget (C15_CPU_BUDGET) before calling it a hang.
 static void cpu_budget(long per_case, long ncases) {
     const char* e = getenv("C15_CPU_BUDGET");
-    long b = e ? atol(e) : 20;
-    if (b < 1) b = 20;
+    long b = e ? atol(e) : 10;
+    if (b < 1) b = 10;
     (void) per_case;
     struct rlimit rl; rl.rlim_cur = (rlim_t) (b + ncases / 50); rl.rlim_max = rl.rlim_cur + 5;
     setrlimit(RLIMIT_CPU, &rl);
@@ -162,12 +162,20 @@ static std::string run_one_forked(DomFn fn, const Case& c) {
     for (size_t i = 0; i < got.size(); ++i) if (got[i] == '\n') got[i] = ' ';
     return got;
 }
+// an operation whose cases exhausted their CPU budget three times is not run again in this process (each further hang would cost
+// a full budget): its remaining cases are answered "NOT-RUN-AFTER-TIMEOUTS", which the python side reports with the three
+static std::map<std::string, int>& timeouts() { static std::map<std::string, int> t; return t; }
 static std::string answer(const std::string& line, bool forked) {
     Case c;
     if (!parse_case(line, c)) return line.empty() ? "" : "BAD-LINE";
     std::map<std::string, DomFn>::iterator it = dom_table().find(c.dom);
     if (it == dom_table().end()) return "UNKNOWN-DOM";
-    return forked ? run_one_forked(it->second, c) : it->second(c);
+    if (!forked) return it->second(c);
+    std::string key = c.dom + " " + c.op;
+    if (timeouts()[key] >= 3) return "NOT-RUN-AFTER-TIMEOUTS";
+    std::string r = run_one_forked(it->second, c);
+    if (r.size() >= 9 && r.compare(r.size() - 9, 9, " CRASH 24") == 0) ++timeouts()[key];
+    return r;
 }
 static int main_loop() {
     std::string line;
